@@ -23,7 +23,7 @@ PROPERTY = "C11"
 LEVEL = "exploration"
 RULE = (
     "hdf: member subsets(7) x bins{1,2,3} x patches{2,3} x auto/cross x closed x contents{dense fingerprint, "
-    "sparse, all-zero, zero-rr, negative/fractional, cancelling, whole numbers with entries >= 2^31 / 2^53 or +-inf, auto containers with two different weight arrays}; yaml: method x closed x unit(8) x scales{single, list of 1, "
+    "sparse, all-zero, zero-rr, negative/fractional, cancelling, whole numbers with entries >= 2^31 / 2^53 or +-inf, auto containers with two different weight arrays, auto containers with counts below the diagonal}; yaml: method x closed x unit(8) x scales{single, list of 1, "
     "list of 3} x rweight/resolution x cosmology names(3) x (zmin,zmax,num_bins) incl. non-representable decimals, "
     "custom edges, max_workers; text: classes{CorrData,RedshiftData,HistData} x bins{1,2,3} x samples{2,3} x "
     "value alphabet {0,+-1e-12,+-0.123456789,+-12345.678,+-1e9,nan,+-inf} placed in every position; metadata: "
@@ -45,9 +45,9 @@ def cases(tier, seed):
     out = []
     for members, B, N, auto, closed, content in itertools.product(
             C.MEMBER_SUBSETS, (1, 2, 3), (2, 3), (False, True), ("right", "left"),
-            ("fp", "sparse", "zero", "zero-rr", "neg", "cancel", "bigint", "infint", "swdiff")):
-        if content == "swdiff" and not auto:
-            continue  # (cross containers have different weight arrays anyway)
+            ("fp", "sparse", "zero", "zero-rr", "neg", "cancel", "bigint", "infint", "swdiff", "lower")):
+        if content in ("swdiff", "lower") and not auto:
+            continue  # (cross containers have different weight arrays / full matrices anyway)
         if tier != "thorough" and closed == "left" and content not in ("fp", "zero"):
             continue
         out.append(dict(part="hdf", members=list(members), B=B, N=N, auto=auto, closed=closed,
@@ -115,7 +115,7 @@ def run_hdf(case):
     content = case["content"]
     cf = c04.make_cf(case["B"], case["N"], case["auto"], case["members"],
                      content if content in ("fp", "sparse", "zero-rr") else "fp", "uneq", case["closed"])
-    if content in ("zero", "neg", "cancel", "bigint", "infint", "swdiff"):
+    if content in ("zero", "neg", "cancel", "bigint", "infint", "swdiff", "lower"):
         kw = {}
         for m, nc in cf.to_dict().items():
             cnt = nc.counts.counts * (0.0 if content == "zero" else -0.37)
@@ -132,6 +132,9 @@ def run_hdf(case):
             if content == "swdiff":  # an auto container whose two weight arrays differ: both must come back
                 cnt = nc.counts.counts.copy()
                 sw2 = sw2 * 1.5 + 0.25
+            if content == "lower":  # an auto container with counts below the diagonal (e.g. patches in reverse order)
+                cnt = nc.counts.counts.copy()
+                cnt = cnt + 0.5 * np.transpose(cnt, (0, 2, 1))[:, ::-1, ::-1][:, ::-1, ::-1] + np.tril(np.ones_like(cnt[0]), -1) * 3.0
             kw[m] = C.make_norm(case["B"], case["N"], nc.auto, closed=case["closed"], counts=cnt,
                                 sw1=nc.sum_weights.sum_weights1, sw2=sw2)
         cf = yaw.CorrFunc(**kw)
